@@ -218,7 +218,7 @@ func Main(args []string) {
 	if err != nil {
 		common.Fatalf("read: %v", err)
 	}
-	for _, r := range common.Supervise("sysiso-child", nil, lines, 120*time.Second, 12) {
+	for _, r := range common.SuperviseRetry("sysiso-child", nil, lines, 120*time.Second, 12) {
 		common.Emit(r)
 	}
 	common.Flush()
